@@ -214,6 +214,88 @@ func ruleErrFlow(c *Ctx, r *Reporter) {
 			}
 		}
 		r.checkP([]string{"C14", "C15"}, goodRev, "reconciler.(incremental).commitStatus|retry carries the revision after the status write", c.posStr(cs.Pos()), "retries.Add gets Table.Revision(wtxn) read after the last write of the iteration", "the revision stored with the retry is read before a later write to the object in the same iteration (the same-pending-id fallback Insert): the retry's status commit compares against a stale revision, its result is dropped and the object is never retried again")
+		// the retry is queued with the version of the object that was written: once the status went
+		// onto a newer version through the fallback Insert, result.original is stale
+		{
+			var next ssa.Instruction
+			for _, ia := range allInstrs(cs) {
+				if nx, ok := ia.In.(*ssa.Next); ok {
+					next = nx
+				}
+			}
+			avoid := map[ssa.Instruction]bool{}
+			if next != nil {
+				avoid[next] = true
+			}
+			fromOriginal := func(v ssa.Value) bool {
+				for i := 0; i < 6; i++ {
+					switch x := v.(type) {
+					case *ssa.TypeAssert:
+						v = x.X
+						continue
+					case *ssa.MakeInterface:
+						v = x.X
+						continue
+					case *ssa.ChangeInterface:
+						v = x.X
+						continue
+					case *ssa.Field:
+						_, f, _ := fieldOf(x)
+						return f == "original"
+					case *ssa.UnOp:
+						if fa, ok := x.X.(*ssa.FieldAddr); ok && x.Op == token.MUL {
+							_, f, _ := fieldOf(fa)
+							return f == "original"
+						}
+					}
+					break
+				}
+				return false
+			}
+			stale := ""
+			nAdd := 0
+			for _, add := range callsIn(c, cs, "reconciler.(retries).Add") {
+				if len(add.Call.Args) < 2 {
+					continue
+				}
+				nAdd++
+				type leaf struct {
+					v    ssa.Value
+					pred *ssa.BasicBlock
+				}
+				var leaves []leaf
+				var walk func(v ssa.Value, pred *ssa.BasicBlock, depth int)
+				walk = func(v ssa.Value, pred *ssa.BasicBlock, depth int) {
+					if phi, ok := v.(*ssa.Phi); ok && depth < 6 {
+						for i, e := range phi.Edges {
+							walk(e, phi.Block().Preds[i], depth+1)
+						}
+						return
+					}
+					leaves = append(leaves, leaf{v, pred})
+				}
+				walk(add.Call.Args[1], nil, 0)
+				for _, ia := range allInstrs(cs) {
+					w, ok := ia.In.(*ssa.Call)
+					if !ok || !w.Call.IsInvoke() || w.Call.Method.Name() != "Insert" {
+						continue
+					}
+					for _, lf := range leaves {
+						if !fromOriginal(lf.v) {
+							continue
+						}
+						var target ssa.Instruction = add
+						if lf.pred != nil {
+							target = lf.pred.Instrs[len(lf.pred.Instrs)-1]
+						}
+						if reachesAvoiding(w, target, avoid) {
+							stale = c.posStr(instrPos(add))
+						}
+					}
+				}
+			}
+			r.checkP([]string{"C15"}, nAdd > 0 && stale == "", "reconciler.(incremental).commitStatus|retry uses the version that was written", c.posStr(cs.Pos()), "after the fallback Insert the retry is queued with the inserted object, otherwise with the reconciled one", "after the status was written onto a newer version of the object (same-pending-id fallback Insert) the retry is still queued with result.original, but with the new revision: when the retry succeeds its status commit passes the revision check and writes the stale version back over the newer one (another reconciler's status is reverted, newer data is lost)")
+		}
 		r.check(good, "reconciler.(incremental).commitStatus|failed results are queued", c.posStr(cs.Pos()), "result.err != nil (status written) -> retries.Add(..., result.err)", "commitStatus does not queue a retry for a failed result: the object stays in Error forever")
 	} else {
 		r.anchorMissing("reconciler.(incremental).commitStatus")
